@@ -118,7 +118,7 @@ PROPS = {
                         "scheme choice (BG4Predictor heuristic, floats) is an oracle: any choice round-trips"],
     },
     "C09": {
-        "modules": ["XetProps.C09Search", "XetProps.C09"],
+        "modules": ["XetProps.C09Search", "XetProps.C09", "XetProps.C09Readers"],
         "theorems": [
             "Xet.InterpSearch.C09_search_constants_ok", "Xet.InterpSearch.C09_search_bounds_production",
             "Xet.InterpSearch.C09_search_checked_ops", "Xet.InterpSearch.C09_search_safe", "Xet.InterpSearch.C09_search_arrangement",
@@ -131,8 +131,15 @@ PROPS = {
             "Xet.Shard.C09_file_table", "Xet.Shard.C09_cas_table", "Xet.Shard.C09_lookup_sorted", "Xet.Shard.C09_sortByKey",
             "Xet.Shard.C09_hash_order", "Xet.Shard.C09_built_sorted", "Xet.Shard.C09_file_record_roundtrip",
             "Xet.Shard.C09_cas_record_roundtrip", "Xet.Shard.C09_bookend", "Xet.Shard.C09_footer_roundtrip",
+            "Xet.Shard.C09_readers_agree", "Xet.Shard.C09_readers_exact", "Xet.Shard.C09_stream_views_return",
+            "Xet.Shard.C09_minimal_accessors", "Xet.Shard.C09_minimal_size", "Xet.Shard.C09_minimal_reserialize",
+            "Xet.Shard.C09_minimal_reserialize_flags", "Xet.Shard.C09_readers_any_trailer", "Xet.Shard.C09_readers_keyed_export",
+            "Xet.Shard.C09_stream_total", "Xet.Shard.C09_minimal_total", "Xet.Shard.C09_walk_fuel_adequate",
+            "Xet.Shard.C09_stream_wrong_tag", "Xet.Shard.C09_truncated_stream", "Xet.Shard.C09_truncated_prefix",
+            "Xet.Shard.C09_truncated_minimal", "Xet.Shard.C09_cut_after_sections", "Xet.Shard.C09_sections_end",
+            "Xet.Shard.C09_readers_agree_any_input", "Xet.Shard.C09_minimal_accessors_total",
         ],
-        "suites": ["shard", "interp_search"],
+        "suites": ["shard", "interp_search", "shard_stream"],
         "level_text": "Interpolation search (search_on_sorted_u64s): theorem for every sorted table, every probe function (so float rounding is "
                       "irrelevant), key and capacity: the result is a permutation of all values stored under the key when fewer than the "
                       "capacity match, else exactly capacity of them; every read index lies in the table, no u64 under/overflow, termination. "
@@ -143,16 +150,29 @@ PROPS = {
                       "the xorb records and the chunk table; get_file_reconstruction_info(h) returns the stored record / not-found for EVERY hash "
                       "when fewer than 8 stored files share its truncated prefix (for every order the search may deliver matches) and the collision "
                       "error otherwise; lookup tables are key-sorted; footer totals and serialized length equal the in-memory accounting (invariant "
-                      "preserved by add_cas_block/add_file_reconstruction_info incl. replacements). Not a theorem: agreement of the streaming and "
-                      "minimal readers with the seekable one.",
+                      "preserved by add_cas_block/add_file_reconstruction_info incl. replacements). Streaming and minimal readers (process_shard_stream and its section "
+                      "walkers, MDBFileInfoView/MDBCASInfoView, MDBMinimalShard::from_reader/file/cas/serialize) are modelled code-shaped on a "
+                      "front-to-back byte stream; theorems for every well-formed content and every chunk table: with every callback / "
+                      "include_files / include_cas combination they return exactly the stored file and xorb records in order (raw bytes, owned "
+                      "re-decoding, header, entry(i), verification(i), chunk(i)), hence agree with the seekable scans; the same on every keyed "
+                      "export (8 flag combinations) and with any bytes behind the CAS bookend; the re-serialized minimal shard is read back by the "
+                      "seekable reader with the content's records and byte totals; on ANY input both readers end Ok / UnexpectedEof / "
+                      "ShardVersionError (the loops need no fuel), the minimal reader fails exactly when the streaming reader fails and otherwise "
+                      "stores exactly the delivered views, and file(i)/cas(i) never hit their expect() (data up to 4 GiB); a shard truncated "
+                      "before the end of the CAS bookend gives UnexpectedEof after delivering exactly the complete records before the cut.",
         "design_ref": "DESIGN.md section 4, C09",
         "technique": "Lean 4 proof (loop invariant, all probe oracles) + byte-exact differential correspondence of the shard format",
         "rule": "shard: contents 0..250 xorbs / 0..400 files, key distributions uniform/clustered/extremes/shared truncated prefix (1..9 equal "
                 "prefixes), duplicate chunk hashes, re-added keys, all four flag combinations, empty records; every stored file hash + adjacent "
                 "absent hashes looked up; interp_search: sorted tables 0..4000 [40000] records in 8 key distributions x present/absent/"
-                "neighbour keys x capacity 1..10 with full seek-trace comparison; distinct by content hash; non-trivial = >=2 records / loop ran",
+                "neighbour keys x capacity 1..10 with full seek-trace comparison; shard_stream: contents 0..25 [80] xorbs / 0..40 [120] files, "
+                "4 key distributions, all four flag combinations, empty records, empty shard; per shard 2 [4] keyed exports and 3 [8] corrupted "
+                "images; 4 callback x 4 option combinations x Cursor / 1-61-byte pieces / async slice / async pieces; truncations at every "
+                "record boundary -49..+49 bytes; distinct by content hash; non-trivial = >=2 records / loop ran",
         "assumptions": ["the f64 expression of compute_probe_location is an arbitrary function in the theorems",
-                        "sort_unstable_by_key order among equal truncated chunk hashes is canonicalised before comparison"],
+                        "sort_unstable_by_key order among equal truncated chunk hashes is canonicalised before comparison",
+                        "streaming readers: 64-bit usize; the reader yields no I/O error other than end of input; the per-record buffer reservation (Vec::with_capacity / resize from the announced entry count) succeeds - on a corrupted (not serialized) input announcing a huge count its failure aborts the process: observation O1 in DESIGN.md 9.4, outside C09 which speaks about serialized shards",
+                        "MDBMinimalShard accessor theorems require the stored sections to fit the u32 offsets (<= 4 GiB); beyond that `len as u32` wraps (modelled by u32Wrap, excluded by hypothesis)"],
     },
     "C19": {
         "modules": ["XetProps.C19"],
